@@ -146,6 +146,10 @@ Theorem C02_scalar_test_terminates : forall d chk s,
   exists bound, forall fuel, (bound < fuel)%nat -> is_scalar fuel d chk s <> Err VE_fuel.
 Proof. exact is_scalar_terminates. Qed.
 
+Theorem C02_string_array_test_terminates : forall d s,
+  exists bound, forall fuel, (bound < fuel)%nat -> is_string_array fuel d s <> Err VE_fuel.
+Proof. exact is_string_array_terminates. Qed.
+
 Theorem C02_self_containing_type_refused : forall n d chk f body,
   lookup_def n d = Some body -> body = SAny [SRef n] \/ body = SAll [SRef n] ->
   is_scalar (S (S f)) d chk (SRef n) = Ok false.
@@ -213,4 +217,5 @@ Print Assumptions C02_path_and_query_rejected.
 Print Assumptions C02_nonscalar_rejected.
 Print Assumptions C02_register_accepted_is_insert.
 Print Assumptions C02_scalar_test_terminates.
+Print Assumptions C02_string_array_test_terminates.
 Print Assumptions C02_self_containing_type_refused.
